@@ -126,7 +126,7 @@ theorem C13_threads_fair_schedules (T : Tables) (js : List (Option Bytes × Nat)
     that non-interference needs. -/
 theorem C13_threads_any_granularity {L : Type} (T : Tables) (step : Tables → L → L)
     (init : Option Bytes × Nat → L) (result : L → Option (Outcome Msg))
-    (alone : ∀ j n r, result (iter (step T) n (init j)) = some r → r = construct T j.1 j.2)
+    (alone : ∀ j n r, result (iterN (step T) n (init j)) = some r → r = construct T j.1 j.2)
     (js : List (Option Bytes × Nat)) (sched : List Nat) (t : Nat) (j : Option Bytes × Nat)
     (hj : js[t]? = some j) (r : Outcome Msg)
     (h : (gpoolRun (step T) (js.map init) sched)[t]?.bind result = some r) :
@@ -135,14 +135,14 @@ theorem C13_threads_any_granularity {L : Type} (T : Tables) (step : Tables → L
   simp only [List.getElem?_map, hj, Option.map_some, Option.bind_some] at h
   exact alone j _ r h
 
-theorem steps_eq_iter (T : Tables) (n : Nat) (s : TState) : TState.steps T n s = iter (tstep T) n s := by
+theorem steps_eq_iter (T : Tables) (n : Nat) (s : TState) : TState.steps T n s = iterN (tstep T) n s := by
   induction n generalizing s with
   | zero => rfl
-  | succ n ih => simp only [TState.steps, iter]; exact ih _
+  | succ n ih => simp only [TState.steps, iterN]; exact ih _
 
 /-- the premise of `C13_threads_any_granularity` is met by the field-granularity model -/
 example (T : Tables) : ∀ (j : Option Bytes × Nat) n r,
-    TState.result (iter (tstep T) n ((fun j : Option Bytes × Nat => TState.start j.1 j.2) j)) = some r →
+    TState.result (iterN (tstep T) n ((fun j : Option Bytes × Nat => TState.start j.1 j.2) j)) = some r →
       r = construct T j.1 j.2 := by
   intro j n r h
   rw [← steps_eq_iter] at h
